@@ -39,7 +39,7 @@ def cfg_json(args):
     return c
 
 
-def run_configs(ctx, pid, mons, configs, heap="12g", workers=8):
+def run_configs(ctx, pid, mons, configs, heap="12g", workers=8, random_runs=None):
     ctx.level = "model_checking"
     exe = harness()
     wd = recs.workdir(pid)
@@ -80,6 +80,25 @@ def run_configs(ctx, pid, mons, configs, heap="12g", workers=8):
             os.remove(gf)
         except OSError:
             pass
+    # full-domain complement: seeded random walks (all byte values, 25 sources, NN <= 16) validated linearly by the same monitors
+    for name, steps, args in (random_runs or []):
+        gf = "%s/r-%s.ndjson" % (wd, name)
+        out = recs.run_harness(ctx, exe, ["random", gf, str(steps)] + args + ["events=" + ",".join(evs)])
+        info = json.loads(out.strip().splitlines()[-1])
+        cf = "%s/cfg-%s.json" % (wd, name)
+        with open(cf, "w") as f:
+            json.dump(cfg_json(args), f)
+        stats, found = graph.check(ctx, "ProtoGraph", "ProtoGraph.cfg", gf, env={"VF_MON": mons, "VF_CFG": cf},
+                                   tag="%s-%s" % (pid, name), heap=heap, workers=2)
+        per[name] = {"random_walk_steps": steps, "seed": ctx.seed, "product_states": stats["distinct"],
+                     "product_transitions": stats["generated"], "harness_args": " ".join(args)}
+        states += stats["distinct"]
+        trans += stats["generated"]
+        for sig, toks in found:
+            if sig.startswith(pid + ":"):
+                ctx.violation(sig, "P monitor rejects a seeded random walk of the real handler (run %s, prefix of %d steps)"
+                              % (name, len(toks)), {"harness_args": args, "tokens": toks})
+        ctx.log(name, info, stats, [f[0] for f in found])
     first = next(iter(per))
     ctx.coverage = {"states": states, "transitions": trans, "traces_validated_against_impl": len(per),
                     "samples": [{"config": first, **per[first]}], "configs": per, "graph_nodes": nodes, "graph_edges": edges,
